@@ -298,3 +298,95 @@ def test_K2_list_pop_is_atomic(fn):
         type(lst)._locks[fn] = gate.real
     # serial orders: pop;append -> (3, [1,2,4])     append;pop -> (4, [1,2,3])
     assert (out[0], json.load(open(fn))) in ((3, [1, 2, 4]), (4, [1, 2, 3]))
+
+
+def test_K3_root_clear_takes_locks_in_the_common_order(fn):
+    """clear() on a buffered root took the collection lock and then the buffer
+    lock; every other mutator takes them in the opposite order."""
+    cls = BufferedJSONDict
+    d = cls(fn)
+    d["a"] = 0
+
+    class BufProxy:
+        def __init__(self, real):
+            self.real = real
+            self.t1_waiting = threading.Event()
+            self.t2_has_it = threading.Event()
+            self.deadlock = False
+
+        def __enter__(self):
+            me = threading.current_thread().name
+            if me == "T1" and not self.t1_waiting.is_set():
+                self.t1_waiting.set()
+                self.t2_has_it.wait(3)
+                if not self.real.acquire(timeout=2):
+                    self.deadlock = True
+                    raise RuntimeError("deadlock: T1 waits for the buffer lock held by T2, which waits for T1's collection lock")
+                return True
+            r = self.real.__enter__()
+            if me == "T2":
+                self.t2_has_it.set()
+            return r
+
+        def __exit__(self, *a):
+            return self.real.__exit__(*a)
+
+    proxy = BufProxy(cls._BUFFER_LOCK)
+    cls._BUFFER_LOCK = proxy
+    errs = []
+
+    def t1():
+        try:
+            d.clear()
+        except RuntimeError as e:
+            errs.append(e)
+
+    try:
+        with cls.buffer_backend():
+            a = threading.Thread(target=t1, name="T1")
+            a.start()
+            assert proxy.t1_waiting.wait(3)
+            b = threading.Thread(target=lambda: d.__setitem__("x", 1), name="T2")
+            b.start()
+            a.join(10)
+            b.join(10)
+    finally:
+        cls._BUFFER_LOCK = proxy.real
+    assert not proxy.deadlock, errs
+
+
+def test_K6_reset_through_second_object_under_shared_memory_buffering(fn):
+    """Two objects on one file in one backend-wide context (shared-memory
+    strategy): a write through the object that does not own the buffer entry
+    and has not loaded in this buffered state (a root reset/clear) was lost."""
+    cls = MemoryBufferedJSONDict
+    a, b = cls(fn), cls(fn)
+    a["x"] = 0
+    with cls.buffer_backend():
+        a["x"] = 1  # a's container becomes the shared buffer entry
+        b.reset({"y": 2})  # destructive: does not load first
+        assert a() == {"y": 2}
+        assert b() == {"y": 2}
+    assert json.load(open(fn)) == {"y": 2}
+
+
+@pytest.mark.xfail(reason="K7: known finding, not repaired (shared-memory design)", strict=True)
+def test_K7_child_handle_survives_another_objects_buffer_entry(fn):
+    cls = MemoryBufferedJSONDict
+    a = cls(fn)
+    a["x"] = {"k": 0}
+    child = a["x"]
+    b = cls(fn)
+    with cls.buffer_backend():
+        b["z"] = 1  # b creates the shared entry from its own container
+        child["k"] = 5  # write through a's nested handle obtained earlier
+        assert a() == {"x": {"k": 5}, "z": 1}
+    assert json.load(open(fn)) == {"x": {"k": 5}, "z": 1}
+
+
+def test_K8_update_replaces_equal_values_of_different_json_type(fn):
+    d = JSONDict(fn)
+    d["a"] = 1
+    d["n"] = {"b": 1}
+    d.update({"a": True, "n": {"b": 1.0}})
+    assert open(fn).read() == '{"a": true, "n": {"b": 1.0}}'
